@@ -169,6 +169,7 @@ func vNewDMState() *vDMState {
 		lc:              lifecycle.New(),
 		hostnameService: s.hosts,
 	}
+	vs.InitNilMaps(dm)
 	s.dm = dm
 	s.lastM = m0
 	vDMRouter.Register(dm, s.st)
@@ -358,6 +359,7 @@ func (s *vDMState) finish() (quiescent bool) {
 	s.st.Free()
 	deadline := time.Now().Add(vStepTimeout)
 	idle := 0
+	owedIdle := false
 	for time.Now().Before(deadline) {
 		if s.done() {
 			return true
@@ -385,15 +387,51 @@ func (s *vDMState) finish() (quiescent bool) {
 			inflight = a || b
 		}
 		if s.st.Visits() == v0 && !inflight && len(s.g.AnyPending()) == 0 {
+			// (a loop that was not scheduled for a millisecond looks the same as
+			// an idle one: while something is owed - a teardown request was
+			// accepted and neither a TeardownLease call nor the end of the manager
+			// has been seen - "idle" is only believed once the whole bound has
+			// passed)
+			if s.owed() {
+				if !owedIdle {
+					owedIdle = true
+					if atomic.LoadInt32(&vDMOwedSeen) != 0 {
+						// (a manager that sat on an accepted teardown for the whole
+						// bound has been seen in this process: the verdict exists)
+						deadline = time.Now().Add(500 * time.Millisecond)
+					}
+				}
+				continue
+			}
 			idle++
 			if idle >= 3 {
 				return true
 			}
 		} else {
 			idle = 0
+			owedIdle = false
 		}
 	}
-	return false
+	if owedIdle {
+		atomic.StoreInt32(&vDMOwedSeen, 1)
+	}
+	return owedIdle
+}
+
+var vDMOwedSeen int32
+
+// owed: a teardown request was accepted, the manager is still running and no
+// TeardownLease call has been made yet.
+func (s *vDMState) owed() bool {
+	if s.run.Accepted["C"] == 0 || s.done() {
+		return false
+	}
+	for _, c := range s.g.Calls() {
+		if c.Kind == vKTeardown {
+			return false
+		}
+	}
+	return true
 }
 
 func (s *vDMState) cleanup() {
